@@ -412,6 +412,19 @@ func (k *checker) walkJSON(f *hcl.File) {
 	k.guard("walk of the returned JSON body"+suffix, func() { k.walkJSONBody(f.Body, nil, 0) })
 }
 
+// plainName: printable ASCII without quote and backslash.
+func plainName(n string) bool {
+	if n == "" {
+		return false
+	}
+	for i := 0; i < len(n); i++ {
+		if n[i] < 0x20 || n[i] > 0x7e || n[i] == '"' || n[i] == '\\' {
+			return false
+		}
+	}
+	return true
+}
+
 func (k *checker) walkJSONBody(b hcl.Body, parent *hcl.Range, depth int) {
 	if b == nil {
 		return
@@ -432,7 +445,17 @@ func (k *checker) walkJSONBody(b hcl.Body, parent *hcl.Range, depth int) {
 		k.st.jsonAttrs++
 		k.st.nodes++
 		okA := k.checkRange(a.Range, "json.Attribute", "Range")
-		k.checkRange(a.NameRange, "json.Attribute", "NameRange")
+		if k.checkRange(a.NameRange, "json.Attribute", "NameRange") && plainName(n) {
+			// a position is sane when it is the position of the thing: the bytes under the name
+			// range are the name as written (judged for plain ASCII names, which are written
+			// exactly one way)
+			k.st.jsonNames++
+			if got := string(k.src[a.NameRange.Start.Byte:a.NameRange.End.Byte]); got != `"`+n+`"` {
+				k.report("range:name-range-not-on-the-name@json.Parse",
+					fmt.Sprintf("json.Parse: the name range %s of property %q covers %q", rstr(a.NameRange), n, clip([]byte(got))),
+					map[string]any{"range": rstr(a.NameRange), "covers": got})
+			}
+		}
 		if a.Expr != nil {
 			er := a.Expr.Range()
 			okE := k.checkRange(er, "json.expression", "Range()")
